@@ -79,7 +79,7 @@ fn main() {
             p @ ("C01" | "C02" | "C10" | "C12") => {
                 let kf = report::KnownFindings::load();
                 let mut run = report::Run::new(p, tier, "rawx");
-                rawx_run::add(&mut run, &kf, p, tier, if tier == "quick" { 25 } else { 1000 });
+                rawx_run::add(&mut run, &kf, p, tier, if tier == "quick" { 120 } else { 1000 });
                 if p == "C12" {
                     rawx_run::add_crash(&mut run, &kf, "C12", tier, if tier == "quick" { 60 } else { 800 });
                     chessx::run_jobs(&mut run, &kf, "C12", chessx::plan("C12", tier), if tier == "quick" { 45 } else { 600 }, "C12");
@@ -142,7 +142,7 @@ fn main() {
             "C13" => {
                 let kf = report::KnownFindings::load();
                 let mut run = report::Run::new("C13", tier, "rawx+vecx");
-                rawx_run::add(&mut run, &kf, "C13", tier, if tier == "quick" { 15 } else { 600 });
+                rawx_run::add(&mut run, &kf, "C13", tier, if tier == "quick" { 90 } else { 600 });
                 vecx_run::add(&mut run, &kf, "C13", tier, if tier == "quick" { 120 } else { 900 });
                 run.cov("rule", serde_json::json!(rawx_run::RULE));
                 run.finish()
